@@ -35,7 +35,7 @@ FAMILY = "bounds"
 CORR = "Bounds"
 FAMNUM = 9
 ORACLES = {"prop_ok": 0, "tie_ok": 1, "mc_ok": 2, "mc_ok5": 3}
-OPNAMES = {1: "hll_fn", 2: "cpc_fn", 3: "theta_fn", 4: "hll_sketch", 5: "cpc_sketch", 6: "theta_sketch", 7: "hll_parts", 8: "monte_carlo", 9: "hll_union"}
+OPNAMES = {1: "hll_fn", 2: "cpc_fn", 3: "theta_fn", 4: "hll_sketch", 5: "cpc_sketch", 6: "theta_sketch", 7: "hll_parts", 8: "monte_carlo", 9: "hll_union", 10: "cpc_image"}
 
 
 def fbits(x):
@@ -191,6 +191,22 @@ def gen_mc(rng, tier, n):
     return cases
 
 
+# lg_k 4 sparse HIP image with 2 coupons (preInts 8, flags COMPRESSED|HIP|TABLE, seed hash of 9001): kxp 15.375,
+# HIP accumulator at byte 24, one table word
+CPC_IMAGE = bytes.fromhex("08011004000ecc930200000001000000" "0000000000c02e40" "0000000000000000" "6b0b0000")
+
+
+def cpc_image_case(cid):
+    """the image above with its HIP accumulator overwritten: values a writer produces (>= the coupon count) and values no
+    writer produces (below the count, NaN, negative) that the reader nevertheless accepts (known finding C01-cpc-image-hip)"""
+    ops = []
+    for hip in (2.064516129032258, 2.0, 3.5, 1e6, 0.0, 1.5, -1.0, float("nan"), float("inf")):
+        b = bytearray(CPC_IMAGE)
+        b[24:32] = struct.pack("<d", hip)
+        ops.append((10, list(b)))
+    return Case(cid, [], ops, tag="bounds-cpc-crafted-hip")
+
+
 def gen(rng, tier, n=None, focus=None):
     if focus == "mc":
         return gen_mc(rng, tier, n)
@@ -224,9 +240,10 @@ def gen(rng, tier, n=None, focus=None):
         else:
             lgk = rng.randint(5, lgmax)
             for _ in range(6):
-                p = rng.choice([1.0, 1.0, 1.0, 0.5, 0.01, 1e-4])
+                p = rng.choice([1.0, 1.0, 1.0, 0.5, 0.01, 1e-4, 5e-17, 1e-30])
                 ops.append((6, [lgk, sizes(rng, lgk, tier), seed + len(ops), f32bits(p), rng.randrange(4)]))
         cases.append(Case(i, [], ops, tag="bounds-%d" % r))
+    cases.append(cpc_image_case(len(cases)))
     return cases
 
 
